@@ -79,7 +79,7 @@ var rec = &recorder{}
 var conn *rpc.Connection
 
 var actions = map[string]func() string{
-	"pubkey": func() string { return hex.EncodeToString(ecc.GetPublicKeyCompressed(key)) },
+	"pubkey":  func() string { return hex.EncodeToString(ecc.GetPublicKeyCompressed(key)) },
 	"pubkeyu": func() string { return hex.EncodeToString(ecc.GetPublicKeyUncompressed(key2)) },
 	"pubkeyx": func() string { return hex.EncodeToString(ecc.GetPublicKeySchnorr(key)) },
 	"bip32master": func() string {
